@@ -376,7 +376,7 @@ func checkScanTotals(r *Run, p *packages.Package) {
 	oa.returnSummaries = true
 	// the verifier's "actual" side: everything reachable from collectDatabaseMetrics
 	verifierSide := map[*types.Func]bool{}
-	if root := cg.Func(modPath+"/retriever."+roleName("collectDatabaseMetrics")); root != nil {
+	if root := cg.Func(modPath + "/retriever." + roleName("collectDatabaseMetrics")); root != nil {
 		for fn := range cg.Reach([]*types.Func{root}, nil) {
 			verifierSide[fn] = true
 		}
